@@ -9,13 +9,16 @@
 (*   pct_2f(%2F)  pct_25(%25)  pct_bad(%zz)  raw_high(byte E9)  ;  +  ht   *)
 (*   q (the first one is the query delimiter "?")                          *)
 (* forms: origin ("/" + symbols), dslash ("//" + symbols),                 *)
-(*        abs ("http://h/" + symbols), star ("*")                          *)
+(*        abs ("http://h/" + symbols), star ("*"),                         *)
+(*        mount ("/m/" + symbols with SCRIPT_NAME configured as "/m")      *)
 (* byte tokens (decoded): a A / % hi ; + ht z ?                            *)
 (***************************************************************************)
 EXTENDS Naturals, Sequences, FiniteSets, TLC
 
 Syms == {"a", "/", "pct_ascii", "pct_high", "pct_2f", "pct_25", "pct_bad", "raw_high", ";", "+", "ht", "q"}
-Forms == {"origin", "dslash", "abs", "star"}
+Forms == {"origin", "dslash", "abs", "star", "mount"}
+(* length of SCRIPT_NAME as configured for the worker (raw_env / process environment) *)
+ScriptLen(form) == IF form = "mount" THEN 2 ELSE 0
 
 Decode(s) == CASE s = "a" -> <<"a">> [] s = "/" -> <<"/">> [] s = "pct_ascii" -> <<"A">> [] s = "pct_high" -> <<"hi">>
                [] s = "pct_2f" -> <<"/">> [] s = "pct_25" -> <<"%">> [] s = "pct_bad" -> <<"%", "z", "z">>
@@ -29,7 +32,7 @@ QuerySyms(t) == IF FirstQ(t) > Len(t) THEN <<>> ELSE SubSeq(t, FirstQ(t) + 1, Le
 RECURSIVE DecodeAll(_)
 DecodeAll(t) == IF t = <<>> THEN <<>> ELSE Decode(Head(t)) \o DecodeAll(Tail(t))
 
-(* PATH_INFO: the percent-decoded path, one latin-1 character per byte; SCRIPT_NAME = "" *)
+(* PATH_INFO: the percent-decoded path, one latin-1 character per byte, after the configured SCRIPT_NAME *)
 ExpectedPath(form, t) ==
   CASE form = "star" -> <<"*">>
     [] form = "dslash" -> <<"/", "/">> \o DecodeAll(PathSyms(t))
